@@ -102,10 +102,12 @@ impl RelayTransport {
             "non matching bufs & recv_infos"
         );
         let mut num_msgs = 0;
-        for i in 0..bufs.len() {
-            let buf_out = &mut bufs[i];
-            let meta_out = &mut metas[i];
-            let recv_info = &mut recv_infos[i];
+        // Not a `for` over the buffers: a dropped datagram must not use up a buffer slot, and
+        // after dropping we need to go back to the queue, which registers our waker if it is empty.
+        while num_msgs < bufs.len() {
+            let buf_out = &mut bufs[num_msgs];
+            let meta_out = &mut metas[num_msgs];
+            let recv_info = &mut recv_infos[num_msgs];
             let dm = match self.poll_recv_queue(cx) {
                 Poll::Ready(Some(recv)) => recv,
                 Poll::Ready(None) => {
@@ -121,10 +123,32 @@ impl RelayTransport {
             };
 
             // This *tries* to make the datagrams fit into our buffer by re-batching them.
+            // Length of the next datagram in the (possibly batched) item.
+            let next_len = dm
+                .datagrams
+                .segment_size
+                .map_or(dm.datagrams.contents.len(), |ss| {
+                    dm.datagrams.contents.len().min(u16::from(ss) as usize)
+                });
+            if next_len > buf_out.len() {
+                // The remote chose a datagram (segment) size larger than our buffer. Taking zero
+                // segments would hand out empty datagrams forever: drop exactly that datagram.
+                let dropped = dm.datagrams.take_segments(1);
+                warn!(
+                    noq_buf_len = buf_out.len(),
+                    datagram_len = dropped.contents.len(),
+                    "dropping received datagram: noq buffer too small"
+                );
+                if dm.datagrams.contents.is_empty() {
+                    self.pending_item = None;
+                }
+                continue;
+            }
+            // At least one: the last, shorter datagram of a batch fits even if a full segment doesn't.
             let num_segments = dm
                 .datagrams
                 .segment_size
-                .map_or(1, |ss| buf_out.len() / u16::from(ss) as usize);
+                .map_or(1, |ss| (buf_out.len() / u16::from(ss) as usize).max(1));
             let datagrams = dm.datagrams.take_segments(num_segments);
             let empty_after = dm.datagrams.contents.is_empty();
             let dm = RelayRecvDatagram {
@@ -146,7 +170,7 @@ impl RelayTransport {
                     segment_size = ?dm.datagrams.segment_size,
                     "dropping received datagram: noq buffer too small"
                 );
-                break;
+                continue;
                 // In theory we could put some logic in here to fragment the datagram in case
                 // we still have enough room in our `buf_out` left to fit a couple of
                 // `dm.datagrams.segment_size`es, but we *should* have cut those datagrams
